@@ -1,4 +1,5 @@
 (** TCPCL endpoint model: statements about the frames an endpoint sends
     (properties C04 and C09).  This file only gathers the parts. *)
 From DTN Require Export Proofs.TcpclSentProofs1 Proofs.TcpclSentProofs2 Proofs.TcpclSentProofs3
-  Proofs.TcpclSentProofs4 Proofs.TcpclSentProofs5 Proofs.TcpclSentProofs6 Proofs.TcpclSentProofs7.
+  Proofs.TcpclSentProofs4 Proofs.TcpclSentProofs5 Proofs.TcpclSentProofs6 Proofs.TcpclSentProofs7
+  Proofs.TcpclSentProofs8.
